@@ -63,6 +63,10 @@ def mk(kind, scripts, late, leaver, sched, react=None, leaver_first=False, closi
         # the producers' threads have finished; the subject is closed; only then does U1 subscribe: a ReplaySubject hands it every
         # item ever pushed (once, in push order) and the terminal, a BehaviorSubject the terminal alone
         fini = [["complete", 0] if closing == "c" else ["error", 0, 5], ["sub", 1, 0]]
+    if kind[1] == "behavior" and late and closing is None:
+        # when everything is over a last subscriber (U3) is handed the subject's final latest value L: a late subscriber that was handed
+        # another value must have received L afterwards ("a value and then every later value")
+        fini = fini + [["sub", 3, 0]]
     scn = ["conc", ["objects"] + objs, ["init"] + init, ["threads"] + threads, ["fini"] + fini, ["sched"] + sched]
     if sched[0] == "dfs":
         scn.append(["want-choices"])
@@ -81,6 +85,10 @@ def generate(rng, tier, seed):
         cases.append(mk(kind, [[101]], True, False, ["dfs", 20000 if kind[1] == "subject" else 3000]))
         cases.append(mk(kind, [[101, 102]], True, False, ["dfs", 3000]))
         cases.append(mk(kind, [[101, 102]], False, True, ["dfs", 3000]))
+        if kind[1] == "behavior":
+            # two producers with one item each and a late subscriber: the window between a producer taking its position and storing
+            # its value is a few lock operations wide
+            cases.append(mk(kind, [[101], [201]], True, False, ["pct", 3, seed * 1000 + 17, 6000 if thorough else 1500]))
         if thorough:
             cases.append(mk(kind, [[101], [201]], True, False, ["dfs", 6000]))
             cases.append(mk(kind, [[101, 102]], True, True, ["dfs", 6000]))
@@ -252,6 +260,11 @@ def judge_one(case, ob):
                         for i, v in enumerate(scr):
                             if first_pos is not None and nexts[v][0] > first_pos and i not in idx:
                                 bad.append("late subscriber of a BehaviorSubject missed item %s whose next() began after it had been handed %s" % (v, head))
+    if kind == "behavior" and case["late"] and not case.get("closing"):
+        u3 = [int(c[1][1]) for c in cbs if c[0] == 3 and c[1][0] == "n"]
+        u1 = [int(c[1][1]) for c in cbs if c[0] == 1 and c[1][0] == "n"]
+        if u3 and u1 and u1[0] != u3[0] and u3[0] not in u1[1:]:
+            bad.append("the late subscriber of a BehaviorSubject was handed %s and never received %s, which is the subject's latest value in the end (a later value was lost): it received %s" % (u1[0], u3[0], u1))
     overl = False
     for (b, e) in sub1 + uns2:
         for v, (nb, ne) in nexts.items():
